@@ -23,6 +23,7 @@ def main():
         r = sh(f"cd {REPO} && patch -p1 --binary -F3 --no-backup-if-mismatch < {patch}")
         if r.returncode:
             sh(f"git -C {REPO} checkout -- .")
+            sh(f"find {REPO} -name '*.rej' -delete -o -name '*.orig' -delete")
             print("patch does not apply:", r.stdout[-300:], r.stderr[-300:]); return 2
     try:
         if demo:
@@ -40,6 +41,7 @@ def main():
                 print(f"    ... {len(lines)} lines")
     finally:
         sh(f"git -C {REPO} checkout -- .")
+        sh(f"find {REPO} -name '*.rej' -delete -o -name '*.orig' -delete")
         # evidence files were rewritten by the mutated run: restore committed ones
         sh(f"git -C {VERIF} checkout -- evidence 2>/dev/null")
     return 0
